@@ -228,6 +228,60 @@ pub fn hashed_both_ways_family() -> Vec<Vec<u8>> {
     out
 }
 
+/// One slot number reaching storage accesses by different routes (a literal, a word read from memory that was never
+/// written, a word stored to memory and read back, a computed constant, the size of empty return data): two or three
+/// accesses of slot 0 / slot 1 by different routes, as keys of loads whose results go to other slots, and as keys of stores.
+pub fn one_slot_by_different_routes_family() -> Vec<Vec<u8>> {
+    let routes0: Vec<Vec<Tok>> = vec![
+        vec![p(0)],
+        vec![p(0x80), o(op::MLOAD)],
+        vec![p(0), p(0x40), o(op::MSTORE), p(0x40), o(op::MLOAD)],
+        vec![p(0), p(0), o(op::ADD)],
+        vec![o(0x3d)],
+    ];
+    let routes1: Vec<Vec<Tok>> = vec![
+        vec![p(1)],
+        vec![p(1), p(0x40), o(op::MSTORE), p(0x40), o(op::MLOAD)],
+        vec![p(0xa0), o(op::MLOAD), p(1), o(op::ADD)],
+        vec![o(0x3d), p(1), o(op::ADD)],
+    ];
+    let mut out = Vec::new();
+    for routes in [routes0, routes1] {
+        for (i, r1) in routes.iter().enumerate() {
+            for (j, r2) in routes.iter().enumerate() {
+                if i == j {
+                    continue;
+                }
+                // sstore(5, sload(r1)); sstore(6, sload(r2)); stop
+                let mut t: Vec<Tok> = Vec::new();
+                t.extend(r1.iter().cloned());
+                t.extend([o(op::SLOAD), p(5), o(op::SSTORE)]);
+                t.extend(r2.iter().cloned());
+                t.extend([o(op::SLOAD), p(6), o(op::SSTORE), o(op::STOP)]);
+                out.push(assemble(&t));
+                // sstore(r1, caller); sstore(6, sload(r2)); stop
+                let mut t: Vec<Tok> = vec![o(op::CALLER)];
+                t.extend(r1.iter().cloned());
+                t.push(o(op::SSTORE));
+                t.extend(r2.iter().cloned());
+                t.extend([o(op::SLOAD), p(6), o(op::SSTORE), o(op::STOP)]);
+                out.push(assemble(&t));
+                // three accesses: a third route in between
+                let r3 = &routes[(j + 1) % routes.len()];
+                let mut t: Vec<Tok> = Vec::new();
+                t.extend(r1.iter().cloned());
+                t.extend([o(op::SLOAD), p(5), o(op::SSTORE)]);
+                t.extend(r3.iter().cloned());
+                t.extend([o(op::SLOAD), p(7), o(op::SSTORE)]);
+                t.extend(r2.iter().cloned());
+                t.extend([o(op::SLOAD), p(6), o(op::SSTORE), o(op::STOP)]);
+                out.push(assemble(&t));
+            }
+        }
+    }
+    out
+}
+
 /// The programs of the two families above as bytecode (C01 and C03 run them too: rendering a recursive slot type
 /// must neither overflow the native stack nor loop).
 pub fn recursive_type_programs() -> Vec<Vec<u8>> {
@@ -613,6 +667,12 @@ impl Check for C02 {
                     }
                     explore_and_record(ctx, "hashed_both_ways_programs", &code, 1, 20_000, &|| json!({"bytes": hex(&code)}));
                 }
+                for (i, code) in one_slot_by_different_routes_family().into_iter().enumerate() {
+                    if i % 16 != c {
+                        continue;
+                    }
+                    explore_and_record(ctx, "one_slot_by_different_routes_programs", &code, if tier.thorough() { 2 } else { 1 }, 20_000, &|| json!({"bytes": hex(&code)}));
+                }
                 for (i, code) in overrunning_mask_family().into_iter().enumerate() {
                     if i % 16 != c {
                         continue;
@@ -696,7 +756,7 @@ impl Check for C02 {
                  under every single deviation, outcomes compared after normalisation; programs: all stack-safe sequences <= {} over 18 evidence tokens (SLOAD / SSTORE of slots 0 and 1, SLOAD / SSTORE with the key taken from the stack, 160-bit and 8-bit \
                  masks, ISZERO, keccak(0) + x, keccak(caller . 0), CALLER, CALLDATALOAD, DUP1, SWAP1) that touch storage; 240 \
                  slot-self-referential programs of 4-9 tokens (a slot's value used as array index / mapping key for a second access, \
-                 with masks, zero tests and signed use in between); idiom \
+                 with masks, zero tests and signed use in between); 96 programs in which slot 0 or 1 reaches two or three storage accesses by different routes (a literal, a read of memory that was never written, a word stored to memory and read back, a computed constant, RETURNDATASIZE); idiom \
                  programs with 1-2 variables from the C04 generator (7 x 8 kind combinations x 3 modes x {} spellings); the shipped \
                  PackedEncodings and SimpleContract. Schedules: a plan is a list of (order point, permutation) on top of the \
                  canonical order at the hooked points (storage / memory export, the type-variable and value tables, the rule set, \
